@@ -103,6 +103,15 @@ def corpus(seed):
                  f'SELECT q.y FROM int1.t3 AS q WHERE q.x IN ({sub}) AND q.x NOT IN ({sub})',
                  f'DELETE FROM int1.t1 WHERE a IN ({sub})'][i % 4]
         out.append((f'plan-sub:{i}', 'plan', outer))
+    # cross-integration joins on several key pairs, several filters, several IN lists: anything collected into a set on the way
+    for i, s_ in enumerate([
+            'SELECT a.id FROM int1.t1 AS a JOIN int2.t2 AS b ON a.id = b.id AND a.a = b.a',
+            'SELECT a.id, b.d FROM int1.t1 AS a JOIN int2.t2 AS b ON a.id = b.id AND a.a = b.a AND a.c = b.d WHERE a.b > 1 AND b.a < 9 AND a.id IN (1, 2, 3)',
+            'SELECT * FROM int1.t1 AS a LEFT JOIN int2.t2 AS b ON b.a = a.a AND b.id = a.id JOIN int3.t3 AS c ON c.id = a.id AND c.x = b.a',
+            'SELECT a.id FROM int1.t1 AS a JOIN int2.t2 AS b ON a.id = b.id AND a.a = b.a JOIN mindsdb.m1 AS m WHERE m.p1 = 1 AND m.p2 = 2 AND m.p3 = 3 AND a.b = 4',
+            'SELECT t.id, m.y FROM int1.t1 AS t JOIN mindsdb.m1 AS m ON m.x1 = t.a AND m.x2 = t.b AND m.x3 = t.c WHERE t.id > 0 USING k1 = 1, k2 = 2, k3 = 3, k4 = 4',
+            'SELECT a.id FROM int1.t1 AS a JOIN int2.t2 AS b ON a.id = b.id AND a.a = b.a AND a.b = b.id AND a.c = b.d AND a.id = b.a']):
+        out.append((f'plan-join-keys:{i}', 'plan', s_))
     # render
     from vf.gen import selgen
     for i in range(30):
